@@ -167,7 +167,7 @@ def check(ctx: Ctx) -> None:
     # ---- enumeration of possible content evaluation results (bounded)
     max_fc = 2 if ctx.tier == "quick" else 3
     for n_fc, n_rc in itertools.product(range(max_fc + 1), range(4)):
-        fcs = ["901", "950", "999"][:n_fc]
+        fcs = ["932", "950", "999"][:n_fc]
         rcs = ["9", "10", "2000"][:n_rc]  # ascending numerically, not lexicographically
 
         def run(ch, fcs=fcs, rcs=rcs):
